@@ -73,6 +73,23 @@ def pause_gate(cx):
     cx.check(ok, "is_paused", "is_paused(): Probe -> paused, Replicate -> ins.full(), Snapshot -> true (found %s)" % {k: show(v) for k, v in seen.items()})
 
 
+def _last_index_of(cx, e):
+    """X such that e is the index of the last element of X: `X.last().unwrap().index`, `(X.last() as Some).0.index`,
+    `X.last().map(|e| e.index)` unwrapped; else None"""
+    from ..idioms import unwrapped, closure_returns
+    if e[0] == "field" and e[2] == "Entry.index":
+        inner = unwrapped(e[1])
+        if inner is not None and inner[0] == "call" and inner[1].endswith("::last"):
+            return inner[2][0]
+        return None
+    inner = unwrapped(e)
+    if inner is not None and inner[0] == "call" and inner[1].endswith("Option::map") and inner[2][0][0] == "call" and inner[2][0][1].endswith("::last") and inner[2][1][0] == "closure":
+        r = closure_returns(cx.prog, inner[2][1][1]) or []
+        if len(r) == 1 and r[0][1][0] == "field" and r[0][1][2] == "Entry.index":
+            return inner[2][0][2][0]
+    return None
+
+
 @obligation("FLOW.window_accounting", ["C13"], floor=4, kind="pairing (after-edge must-pass) + exhaustive shape",
             why="an entry-carrying append that is not accounted for lets the leader exceed the inflight window / probe limit")
 def window_accounting(cx):
@@ -87,10 +104,28 @@ def window_accounting(cx):
                 continue
             n += 1
             a = call_args(cx, c)
-            ok = is_f(a[1], "Entry.index") and contains(fld("Message.entries"), a[1]) and "last" in show(a[1])
+            # the collection whose last index is reported: the message's entries, or the vector that this function
+            # attaches to the message (`m.set_entries(ents.into())`, before or after the bookkeeping)
+            attached = []
+            for sp2, c2 in cx.prog.calls_out[f.key]:
+                if c2.kind == "call" and sp2.endswith("set_entries"):
+                    attached += [x for x in walk(call_args(cx, c2)[1]) if x[0] in ("param", "local")]
+            coll = _last_index_of(cx, a[1])
+            ok = coll is not None and (contains(fld("Message.entries"), coll) or any(x in attached for x in walk(coll)))
             cx.check(ok, cx.site_key(c, "update_state:arg"), "update_state receives the index of the last entry of the message (found %s)" % show(a[1])[:100], c)
-        def nonempty(lits):
-            return any(l[0] == "is" and l[2] is False and l[1][0] == "call" and l[1][1].endswith("is_empty") and contains(fld("Message.entries"), l[1]) for l in lits)
+        def nonempty(lits, attached_of=f):
+            att = []
+            for sp2, c2 in cx.prog.calls_out[attached_of.key]:
+                if c2.kind == "call" and sp2.endswith("set_entries"):
+                    att += [x for x in walk(call_args(cx, c2)[1]) if x[0] in ("param", "local")]
+            def about(e):
+                return contains(fld("Message.entries"), e) or any(x in att for x in walk(e))
+            for l in lits:
+                if l[0] == "is" and l[2] is False and l[1][0] == "call" and l[1][1].endswith("is_empty") and about(l[1]):
+                    return True
+                if l[0] == "in" and l[2] == frozenset(["Some"]) and l[1][0] == "call" and any(x[0] == "call" and x[1].endswith("::last") for x in walk(l[1])) and about(l[1]):
+                    return True
+            return False
         ok, ne = g.after_edge_must_pass(nonempty, lambda b: b in ub)
         if ne:
             cx.check(ok, "pair:" + fn_name(f), "%s: whenever the message carries entries, update_state is called before returning" % fn_name(f))
@@ -139,7 +174,30 @@ def resume_pairing(cx):
     for f in hb.values():
         g = cx.pg(f)
         found = lambda l: l[0] == "in" and l[2] == frozenset(["Some"]) and l[1][0] == "call" and "ProgressTracker::get" in l[1][1]
-        _after(cx, f, found, ["Progress::resume"], "hbresp:resume", "heartbeat response: a found progress is always resumed (a lost probe cannot stall it)")
+        has_found = any(found(l) for n_ in range(len(g.nodes)) for _, ls in g.edges[n_] or [] for l in ls)
+        if has_found:
+            _after(cx, f, found, ["Progress::resume"], "hbresp:resume", "heartbeat response: a found progress is always resumed (a lost probe cannot stall it)")
+        else:
+            # the dispatcher has already dropped responses of untracked senders and the handler unwraps its lookup:
+            # from the unwrap on, every way out resumes
+            unw = {c.block for c in cx.prog.all_calls if c.fn is f and c.data["callee"] in ("core::option::Option::unwrap", "core::option::Option::expect")
+                   and any(x[0] == "call" and "ProgressTracker::get" in x[1] for x in walk(call_args(cx, c)[0]))}
+            rs = call_blocks(f, "Progress::resume")
+            ok = bool(unw) and bool(rs)
+            for ub in unw:
+                seen, work = set(), [m_ for n_ in g.by_block.get(ub, []) for m_, _ in g.edges[n_] or []]
+                while work:
+                    n_ = work.pop()
+                    if n_ in seen:
+                        continue
+                    seen.add(n_)
+                    bi = g.nodes[n_][0]
+                    if bi in rs:
+                        continue
+                    if f.body.blocks[bi]["term"]["k"] == "return":
+                        ok = False
+                    work += [m_ for m_, _ in g.edges[n_] or []]
+            cx.check(ok, "hbresp:resume", "heartbeat response: the sender's progress (looked up and unwrapped) is always resumed (a lost probe cannot stall it)")
         full = lambda l: l[0] == "is" and l[2] is True and l[1][0] == "call" and l[1][1].endswith("Inflights::full")
         _after(cx, f, full, ["Inflights::free_first_one"], "hbresp:free-one", "heartbeat response: a full window in Replicate gets one slot freed (lost acks cannot stall it)")
         behind = lambda l: l[0] == "is" and l[2] is True and l[1][0] == "bin" and l[1][1] == "Lt" and is_f(l[1][2], "Progress.matched") and l[1][3][0] == "call" and l[1][3][1].endswith("RaftLog::last_index")
@@ -406,7 +464,9 @@ def timers(cx):
     g = cx.pg(te)
     hup = self_blocks(te, "MsgHup")
     passed = lambda l: l[0] == "is" and l[2] is True and is_f(l[1], "RaftCore.promotable")
-    ok, ne = g.after_edge_must_pass(lambda lits: any(passed(l) for l in lits), lambda b: b in hup)
+    # both conditions hold (in whichever order they are tested): the MsgHup step follows
+    both = [l for n_ in range(len(g.nodes)) for _, ls in g.edges[n_] or [] for l in ls if passed(l) or (l[0] == "is" and l[2] is True and l[1][0] == "call" and l[1][1].endswith("pass_election_timeout"))]
+    ok, ne = g.after_edge_must_pass(lambda lits: any(passed(l) for l in lits), lambda b: b in hup, assume=both)
     timeout = any(l[0] == "is" and l[2] is True and l[1][0] == "call" and l[1][1].endswith("pass_election_timeout") for t in selfs if t.fn is te for l in cx.guard_lits(t.site))
     cx.check(ok and ne >= 1 and bool(hup) and timeout, "election:campaign", "tick_election: once the (randomized) timeout has passed on a promotable node, a self-addressed MsgHup is stepped")
     pet = cx.fn("Raft::pass_election_timeout")
